@@ -493,7 +493,10 @@ class Unit:
             for ln_ in l32:
                 self.desugar_log.append(('D32', '%s: %s' % (e.qualname, ln_)))
         if re.search(r'\bcontinue\b', text) and re.search(r'\bfor\b', text) and not e.trusted:
-            from .inline import desugar_for_continue
+            from .inline import desugar_for_continue, drop_tail_continues
+            text, n31b = drop_tail_continues(text)
+            if n31b:
+                self.desugar_log.append(('D31', '%s: %d `continue;` in tail position of a `for` body (last statement of a branch of the final if / else chain) dropped' % (e.qualname, n31b)))
             text, n31 = desugar_for_continue(text)
             if n31:
                 self.desugar_log.append(('D31', '%s: %d `if C { ..; continue; } REST` in a `for` body -> `if C { .. } else { REST }` (Verus for-loops have no `continue`)' % (e.qualname, n31)))
